@@ -380,11 +380,25 @@ theorem tryPositiveShiftedPlain_good (hN : Normed raw expText lead full ne) (cap
   · rw [fullMantissaIfCapped_eq hN cap] at h
     exact formatPositiveShiftedPlain_good neg lead full hN.hlead hN.hlead0 hN.hfull se hpos _ p h
 
-/-- the finite, non-zero path of `format_number_jq_compat`. -/
-theorem formatExpLiteral_fin_good (hN : Normed raw expText lead full ne) (cap : Nat)
-    (hcap : full.length ≤ cap) (neg : Bool) :
-    Good (formatExpLiteral cap .fin neg raw expText)
+/-- the finite, non-zero path of `format_number_jq_compat_with`: real output (`preview = false`)
+needs no digit-cap condition at all; the preview variant needs `≤ cap + 1` significant digits. -/
+theorem formatExpLiteral_fin_good (hN : Normed raw expText lead full ne) (cap : Nat) (preview : Bool)
+    (hcap : preview = true → full.length ≤ cap) (neg : Bool) :
+    Good (formatExpLiteral cap preview .fin neg raw expText)
       ⟨neg, digitsVal (lead :: full), ne - (full.length : Int)⟩ := by
+  have hsci : Good (if preview = true then assembleScientific (signStr neg) (mantOf lead (List.take cap full)) ne
+      else assembleScientific (signStr neg)
+        (fullMantissaIfCapped cap raw expText (mantOf lead (List.take cap full)) ((full.length : Int) + 1)) ne)
+      ⟨neg, digitsVal (lead :: full), ne - (full.length : Int)⟩ := by
+    cases preview with
+    | true =>
+      simp only [if_true]
+      rw [List.take_of_length_le (hcap rfl)]
+      exact assembleScientific_good neg lead full hN.hlead hN.hfull ne
+    | false =>
+      simp only [Bool.false_eq_true, if_false]
+      rw [fullMantissaIfCapped_eq hN cap]
+      exact assembleScientific_good neg lead full hN.hlead hN.hfull ne
   unfold formatExpLiteral
   simp only [hN.norm (some cap), capTake, ExpParse.value]
   by_cases hwin : (ne == 0) = true ∨ (-6 ≤ ne ∧ ne ≤ -1)
@@ -400,13 +414,9 @@ theorem formatExpLiteral_fin_good (hN : Normed raw expText lead full ne) (cap : 
       cases hp : tryPositiveShiftedPlain cap (signStr neg) raw expText ne ((full.length : Int) + 1)
           (mantOf lead (List.take cap full)) with
       | some p => exact tryPositiveShiftedPlain_good hN cap neg ne hpos p hp
-      | none =>
-        simp only
-        rw [List.take_of_length_le hcap]
-        exact assembleScientific_good neg lead full hN.hlead hN.hfull ne
+      | none => exact hsci
     · simp only [hpos, if_false]
-      rw [List.take_of_length_le hcap]
-      exact assembleScientific_good neg lead full hN.hlead hN.hfull ne
+      exact hsci
 
 /-- `format_near_zero_literal`, non-zero mantissa (underflowed literal): always scientific. -/
 theorem formatNearZeroLiteral_good (hN : Normed raw expText lead full ne) (cap : Nat)
@@ -622,10 +632,10 @@ theorem classifyMag_nil (e : Int) : classifyMag [] e = .zero := by simp [classif
 
 /-- `format_number_jq_compat` on a literal with an exponent part dispatches to `formatExpLiteral`
 with the mantissa text and the exponent text. -/
-theorem formatNumberJqCompat_exp (cap : Nat) (l : Lit) (hw : l.wf) (m : Char) (s d : Str)
+theorem formatNumberJqCompat_exp (cap : Nat) (preview : Bool) (l : Lit) (hw : l.wf) (m : Char) (s d : Str)
     (hexp : l.exp = some (m, s, d)) (hcls : classify l.text ≠ .err) :
-    formatNumberJqCompat cap l.text
-      = formatExpLiteral cap (classify l.text) (l.sign == ['-']) (rawOf l) (s ++ d) := by
+    formatNumberJqCompatWith cap preview l.text
+      = formatExpLiteral cap preview (classify l.text) (l.sign == ['-']) (rawOf l) (s ++ d) := by
   have he := hw.exp
   rw [hexp] at he
   simp only at he
@@ -634,7 +644,7 @@ theorem formatNumberJqCompat_exp (cap : Nat) (l : Lit) (hw : l.wf) (m : Char) (s
   have hcont : (l.text.contains 'e' || l.text.contains 'E') = true := by
     rw [text_eq_raw l m s d hexp]
     rcases he.1 with h | h <;> subst h <;> simp
-  unfold formatNumberJqCompat
+  unfold formatNumberJqCompatWith
   simp only [hcont, Bool.not_true, Bool.false_eq_true, if_false]
   have hneg : isNegativeLit l.text = (l.sign == ['-']) := stripSign_text_fst l hw
   rw [hneg]
